@@ -24,7 +24,7 @@ Caught(rec) == IF rec.cfe = 1 /\ rec.fail_kind = "filter" THEN FailSet(rec) ELSE
 \* is computed here; shape "pipeline": the pool workers index a structured
 \* pipeline they share, the record carries what the plain sequential pipeline
 \* delivered (coded values, taken without any pool before the run)
-ExpOf(rec) == IF rec.shape = "pipeline" THEN [items |-> rec.seq, out |-> "returned"]
+ExpOf(rec) == IF rec.shape = "pipeline" THEN [items |-> rec.seq, out |-> rec.seq_out]
               ELSE SeqExpect(rec.n, rec.n + 1, "none", FailSet(rec), Caught(rec))
 
 \* C04 also demands the same len() (when the dataset offers one)
